@@ -1,10 +1,102 @@
 (* C18 - hash set/map: contents, size, iteration match a reference set after any history.
-   Only statements here; every proof is `exact <lemma of HS/HSProofs.v>`. *)
+   Only statements here; every proof is `exact <lemma of HS/HSProofs.v>`.
+
+   Model: HS/HSModel.v (ConcurrentFixedSwissTable at the level of control bytes / mirrored group / 7-bit
+   checker / triangular group probing, and the ConcurrentTransientHashSet/Map chain), every formula taken from
+   Gen/Gen_hash_table.v.  Client programs (`list op`) act on two containers A and B: emplace, find, size,
+   iterate, clear, reserve, rehash on A; B = A, A = B (copy), A = std::move(B), swap.  The reference
+   (`rrun`) is an insertion-ordered association list, first insertion wins.  `refines hash a b ops` says that
+   every observation of the run equals the reference's: emplace's inserted flag and the element at the returned
+   iterator, find's result (the mapped value first inserted), size(), and the iterated sequence as a
+   permutation of the reference content (which never holds a key twice: c18_reference_distinct).
+
+   Status.
+   * c18_refines_set: PROVED for every hash function, every pair of explicit bucket counts (any integers:
+     0, 1, non powers of two, ...) and every operation sequence, all element types being (key, mapped) pairs.
+   * c18_default_constructed_refuted / c18_default_size_plus_16 / c18_default_iteration_stops: the same statement
+     is FALSE of the faithful model when a container is default-constructed (placeholder head): size() = n + 16
+     and iteration (hence copy / reserve / rehash, which iterate) stops after the first chained table.  The
+     witnesses are replayed on the real classes by checks/c18.py (cases wit-size, wit-iter): finding F1.
+     GAP: the positive theorem does not cover default-constructed containers; it cannot for the current source.
+     After the repair (begin(): `return {node->next.load(acquire), iter}` / `node = node->next.load(acquire)`;
+     total_size: `auto sum = _head.table.size()`), Gen_hash_table.begin_chained_next / begin_loop_next /
+     total_size_init change, the three `_refuted`-style theorems below stop compiling (delete them) and the
+     invariant CInv of HSProofs.v has to admit `head c = dummy_table` (dummy_templace, dummy_tfind, dummy_titer
+     are already proved) to extend c18_refines_set to `init None _`.  The model itself needs no change. *)
 From Coq Require Import ZArith List Permutation.
 Require Import Verif.Gen.Gen_hash_table Verif.HS.HSModel Verif.HS.HSProofs.
 Import ListNotations.
 Local Open Scope Z_scope.
 
+(* the property, for containers constructed with a bucket count *)
+Theorem c18_refines_set : forall (hash : Z -> Z) (na nb : Z) (ops : list op),
+  refines hash (Some na) (Some nb) ops.
+Proof. exact hs_refines_set. Qed.
+Print Assumptions c18_refines_set.
+
+(* "each element exactly once": the reference content the iteration is a permutation of has distinct keys *)
+Theorem c18_reference_distinct : forall ops r,
+  NoDup (map fst (fst r)) /\ NoDup (map fst (snd r)) ->
+  NoDup (map fst (fst (fst (rrun r ops)))) /\ NoDup (map fst (snd (fst (rrun r ops)))).
+Proof. exact rrun_nodup. Qed.
+Print Assumptions c18_reference_distinct.
+
+(* the pieces the property text names, one fixed table: find succeeds for exactly the stored keys *)
+Theorem c18_table_find : forall hash t key, WF hash t ->
+  match tfind hash t key with Some i => holds t i key | None => absent t key end.
+Proof. exact tfind_spec. Qed.
+Print Assumptions c18_table_find.
+
+(* insert-if-absent on one table: existing key -> unchanged; else stored once (iteration gains exactly e);
+   "full" only when every bucket is taken *)
+Theorem c18_table_emplace : forall hash t e, WF hash t ->
+  (In (fst e) (map fst (titer t)) /\
+     exists i x, templace hash t e = (t, EExists i) /\ vals t i = Some x /\ fst x = fst e /\ In x (titer t)) \/
+  (~ In (fst e) (map fst (titer t)) /\ cnt t < bcount t /\
+     exists t' i, templace hash t e = (t', EInserted i) /\ WF hash t' /\ bcount t' = bcount t /\
+                  vals t' i = Some e /\ Permutation (titer t') (e :: titer t) /\ cnt t' = cnt t + 1) \/
+  (~ In (fst e) (map fst (titer t)) /\ cnt t = bcount t /\ templace hash t e = (t, EFull)).
+Proof. exact templace_cases. Qed.
+Print Assumptions c18_table_emplace.
+
+(* size as sum of the full tables' bucket counts plus the last table's counter *)
+Theorem c18_total_size : forall hash c, CInv hash c -> csize c = Z.of_nat (length (celems c)).
+Proof. exact csize_spec. Qed.
+Print Assumptions c18_total_size.
+
+(* cross-table iteration visits the tables' contents in chain order, nothing else *)
+Theorem c18_iteration : forall hash c, CInv hash c -> citer c = Some (celems c).
+Proof. exact citer_spec. Qed.
+Print Assumptions c18_iteration.
+
+(* rehash / reserve / copy keep the content (incl. shrinking requests: max(new_bucket_count, size)) *)
+Theorem c18_rehash_keeps : forall hash c l n, Ref hash c l -> Ref hash (crehash hash c n) l.
+Proof. exact crehash_spec. Qed.
+Print Assumptions c18_rehash_keeps.
+Theorem c18_reserve_keeps : forall hash c l n, Ref hash c l -> Ref hash (creserve hash c n) l.
+Proof. exact creserve_spec. Qed.
+Print Assumptions c18_reserve_keeps.
+Theorem c18_copy_keeps : forall hash c l, Ref hash c l -> Ref hash (ccopy hash c) l.
+Proof. exact ccopy_spec. Qed.
+Print Assumptions c18_copy_keeps.
+
+(* ---- the default-constructed container: the full statement is false of the code as it is ---- *)
 Theorem c18_default_constructed_refuted : exists ops, ~ refines hid None None ops.
-Proof. exact hs_default_size_refuted. Qed.
+Proof. exact hs_default_refuted. Qed.
 Print Assumptions c18_default_constructed_refuted.
+
+Theorem c18_default_size_plus_16 : ~ refines hid None None [Emplace 1 0; Size].
+Proof. exact hs_default_size_refuted. Qed.
+Print Assumptions c18_default_size_plus_16.
+
+Theorem c18_default_iteration_stops :
+  exists l, last (snd (run hid (init None None) (fill49 ++ [Iterate]))) OUnit = OIter (Some l) /\ length l = 32%nat.
+Proof. exact hs_default_iter_refuted. Qed.
+Print Assumptions c18_default_iteration_stops.
+
+(* non-vacuity: the invariant's interesting states are reached (two chained tables), WF tables exist *)
+Example c18_chain_of_three :
+  length (rest (fst (fst (run hid (init (Some 16) (Some 16)) (map (fun k => Emplace k 0) (zrange 60)))))) = 2%nat.
+Proof. exact hs_example_chain. Qed.
+Example c18_wf_inhabited : WF hid (fresh 100).
+Proof. exact (proj1 (fresh_wf hid 100)). Qed.
